@@ -19,7 +19,7 @@ ASSUMPTIONS = ["points are built by the affine model (vf/model/ec.py) from the p
                "which bilinear map is computed is pinned by C12 (optimized == reference); C05 checks the laws"]
 ENGINE = "hypothesis (algebraic laws)"
 _REQ = [f"{law}:{m}" for m in pc.MODULES for law in ("bilinear", "additive", "negation", "order", "infinity", "offcurve")]
-_REQ += ["bilinear:scaled", "bilinear:big_scalars", "infinity:rep", "offcurve:other_argument_infinity"]
+_REQ += ["bilinear:raw_first", "bilinear:scaled", "bilinear:big_scalars", "infinity:rep", "offcurve:other_argument_infinity"]
 REQUIRED_LABELS = {"quick": _REQ, "thorough": _REQ}
 
 
@@ -33,7 +33,19 @@ def o_bilinear(ctx, case):
     curve = pc.CURVE_OF[name]
     C = mc.CURVES[curve]
     ctx.begin("bilinear", case)
-    got = _pair(name, pc.kG(curve, "G2", b), pc.kG(curve, "G1", a), case.get("sq"), case.get("sp"))
+    if name.startswith("optimized") and case.get("raw_first"):
+        # the same representatives paired first without, then with the final exponentiation: the
+        # value of pairing(Q, P) must not depend on what was computed for these points before
+        Q = pc.lib_pt(name, "G2", pc.kG(curve, "G2", b), scale=pc.unscale(case.get("sq")))
+        Pt = pc.lib_pt(name, "G1", pc.kG(curve, "G1", a), scale=pc.unscale(case.get("sp")))
+        M = pc.pm(name)
+        raw = M.pairing(Q, Pt, final_exponentiate=False)
+        got = M.pairing(Q, Pt)
+        ctx.check(pc.coeffs(M.final_exponentiate(raw)) == pc.coeffs(got), "bilinear", "raw_then_full", case,
+                  f"{name}: final_exponentiate(pairing(Q, P, final_exponentiate=False)) != pairing(Q, P) for the same objects")
+        ctx.label("bilinear:raw_first")
+    else:
+        got = _pair(name, pc.kG(curve, "G2", b), pc.kG(curve, "G1", a), case.get("sq"), case.get("sp"))
     want = pc.e0(name) ** ((a * b) % C.r)
     ctx.check(type(got) is mod(name).FQ12, "bilinear", "type", case, f"pairing returned {type(got).__name__}")
     ctx.check(pc.coeffs(got) == pc.coeffs(want), "bilinear", "value", case,
@@ -201,7 +213,8 @@ def t_laws(ctx, module, shard, nb, na, nn):
     if shard == 0:
         ex = [{"module": name, "a": 0, "b": 5, "sq": None, "sp": None}, {"module": name, "a": r, "b": 1, "sq": None, "sp": None},
               {"module": name, "a": r - 1, "b": r - 1, "sq": None, "sp": None}]
-    drive(ctx, f"bil{name}{shard}", st.fixed_dictionaries({"module": st.just(name), "a": sc, "b": sc, "sq": sq, "sp": sp}),
+    drive(ctx, f"bil{name}{shard}", st.fixed_dictionaries({"module": st.just(name), "a": sc, "b": sc, "sq": sq, "sp": sp,
+                                                           "raw_first": st.booleans()}),
           lambda c: o_bilinear(ctx, c), nb, ex, shrink=False)
     small = st.one_of(st.integers(1, 40), uniform_int(1, r - 1))
     drive(ctx, f"add{name}{shard}", st.fixed_dictionaries({"module": st.just(name), "a": small, "b": small, "c": small,
